@@ -885,11 +885,25 @@ impl<'a> SInterp<'a> {
                             self.out.nontrivial = true;
                         }
                         // the server notices the closed connection in that connection's task
+                        // (it first drops the client from its client table and then leaves the groups one by one:
+                        // wait for the table AND for the groups' member lists, up to 20 s on a loaded machine;
+                        // what is still wrong after that is judged by the regular check below)
                         let want = 1 + self.clients.len();
-                        let deadline = std::time::Instant::now() + std::time::Duration::from_secs(2);
+                        let deadline = std::time::Instant::now() + std::time::Duration::from_secs(20);
                         loop {
                             let cnt = n.block_on(async { iggy::client::SystemClient::get_clients(self.admin.as_ref().unwrap()).await }).map(|v| v.len()).unwrap_or(0);
-                            if cnt <= want || std::time::Instant::now() > deadline {
+                            let mut groups_ok = true;
+                            for g in 0..2usize {
+                                let mc = n
+                                    .block_on(async { self.admin.as_ref().unwrap().get_consumer_group(&sid(), &tid(), &Self::gid(g)).await })
+                                    .ok()
+                                    .flatten()
+                                    .map(|d| d.members_count as usize);
+                                if mc != Some(self.members[g].len()) {
+                                    groups_ok = false;
+                                }
+                            }
+                            if (cnt <= want && groups_ok) || std::time::Instant::now() > deadline {
                                 break;
                             }
                             n.settle(2);
